@@ -316,7 +316,29 @@ def rule_alias(ctx):
         for nm, st in names.items():
             key = ctx.key(f, "C04-ALIAS", nm)
             mut = _mutations_of(ctx, f, {nm})
-            # a rebinding `x = other` before the mutation is not tracked: conservative
+            # only mutations that a *cached* definition of the name reaches (the name may be re-bound to a fresh
+            # dict on another path, e.g. in the handler of a failed lookup)
+            if mut:
+                fl_ = ctx.flow(f)
+                live = []
+                for mn in mut:
+                    try:
+                        at = fl_.node_of_expr(mn)
+                    except Exception:
+                        at = None
+                    if at is None:
+                        live.append(mn)
+                        continue
+                    defs = fl_.defs_reaching(nm, at)
+
+                    def cached(v):
+                        return (isinstance(v, ast.Call) and isinstance(v.func, ast.Attribute)
+                                and v.func.attr in ("get_legs", "get_involved")) or \
+                            (isinstance(v, ast.Subscript) and isinstance(v.slice, ast.Constant)
+                             and v.slice.value in ("legs", "involved"))
+                    if not defs or any(d.value is not None and cached(d.value) and d.kind in ("assign",) and d.strong for d in defs):
+                        live.append(mn)
+                mut = live
             if mut:
                 r.violation(key, C.loc(f, mut[0]), f"`{nm}` holds a cached legs/involved "
                             "dictionary (shared with copies of the tree) and is mutated in place",
@@ -675,7 +697,7 @@ def rule_whole(ctx):
     src = rule_node(ctx)
     r = RuleResult("C04-WHOLE", "_remove_node leaves no cached figure of the node behind", 1)
     for i in src.instances:
-        if i.construct.endswith("::whole-entry"):
+        if i.construct.endswith("::whole-entry") or "::info[...] = " in i.construct:
             c = i.construct.replace("C02-NODE", "C04-WHOLE")
             if i.verdict == "violation":
                 r.violation(c, i.loc, i.reason, **i.detail)
@@ -691,7 +713,8 @@ def rule_presurv(ctx):
 
     return C.reuse_rule(ctx, rule_surv, "C18-SURV", "C04-PRESURV",
                         "the simulator whose figures are cached in the tree uses the tree's "
-                        "survival rule", lambda i: C.ANNEAL in i.construct, 3)
+                        "survival rule", lambda i: C.ANNEAL in i.construct or "merge-counts" in i.construct
+                        or "leaf-counts" in i.construct, 3)
 
 
 def rule_pure(ctx):
